@@ -46,6 +46,7 @@ static int vp_trace_fd = -1;
 static int vp_trace_reads;
 static long vp_kill_k = -1;
 static int vp_kill_mode; /* 0 before 1 after 2 torn */
+static int vp_signo = SIGINT; /* VP_SIGNO: the signal VP_SIGINT delivers (the tool handles INT, TERM, HUP, QUIT alike) */
 static long vp_pause_k = -1;
 static const char* vp_pause_fifo;
 
@@ -133,6 +134,8 @@ __attribute__((constructor)) static void vp_init(void)
 	if (e) parse_rules(e, fail_rule, &fail_n, 1);
 	e = getenv("VP_SIGINT");
 	if (e) parse_rules(e, sig_rule, &sig_n, 0);
+	e = getenv("VP_SIGNO");
+	if (e && atoi(e) > 0) vp_signo = atoi(e);
 	e = getenv("VP_ROT");
 	if (e) parse_rules(e, rot_rule, &rot_n, 0);
 	e = getenv("VP_KILL");
@@ -229,7 +232,7 @@ static void check_sigint(const char* call, const char* path)
 		if (strcmp(r->call, call) != 0) continue;
 		if (fnmatch(r->glob, path, 0) != 0) continue;
 		long c = __atomic_fetch_add(&r->count, 1, __ATOMIC_SEQ_CST);
-		if (c == r->n) raise(SIGINT);
+		if (c == r->n) raise(vp_signo);
 	}
 }
 
